@@ -101,6 +101,17 @@ def programs(draw):
             stall = [['block', side], ['emit', i, draw(st.sampled_from(['resp', 'req'])), 2], ['resolve', i], ['tick', 2],
                      ['adv', draw(st.sampled_from([60, 150, 400]))], ['unblock', side], ['tick', 3]]
             tail.insert(draw(st.integers(0, len(tail))), stall)
+    if draw(st.integers(0, 3)) == 0:
+        # application code that fails on another stream while trains are in flight: a request whose handler raises, issued
+        # (once or twice) somewhere in the middle of the traffic
+        for _ in range(draw(st.integers(1, 2))):
+            inter.append({'k': 'rr', 'side': draw(st.sampled_from(['c', 's'])), 'req': [3, 1], 'resp': {'mode': 'raise', 'p': [1, 0]}})
+            at = draw(st.integers(0, len(tail)))
+            burst = [['start']]
+            if draw(st.booleans()):
+                # right behind a large element, so that it is sent between that element's fragments
+                burst = [['emit', draw(st.integers(0, 3)), draw(st.sampled_from(['resp', 'req'])), 1], ['start']]
+            tail.insert(at, burst)
     ops.extend(o for ch in tail for o in ch)
     return {'cfg': cfg, 'inter': inter, 'ops': ops}
 
